@@ -159,3 +159,7 @@ Fixpoint chk_handlers_from (st : hstate) (ops : list hop) (obs : list (bool * N 
   end.
 Definition chk_handlers (seed : list hentry) (ops : list hop) (obs : list (bool * N * list hentry)) : bool :=
   chk_handlers_from (h_of seed) ops obs.
+
+(** clean-up: every file that disappeared (other than the addressed manifest) is a target of one of the digests *)
+Definition chk_cleanup (root : str) (ds : list str) (removed : list str) : bool :=
+  forallb (fun p => existsb (eqb_str p) (cleanup_targets root ds)) removed.
